@@ -57,6 +57,9 @@ OBLIGATIONS = [
     ("no_reentrant_ServeHTTP_call", "Nat.eqb (sf_reentrant_serve_calls facts) 0"),
     ("serve_is_locked", "serve_is_locked facts"),
     ("facts_ok", "facts_ok facts"),
+    # the engine's unlocked state-changing entry points (SetScenario, SetSolution, SetSolutionSummary) are reached only from
+    # straight-line start-up code that runs before the server is started
+    ("boot_loaders_run_before_serving", "match boot_concurrent_sites with [] => true | _ => false end"),
 ]
 
 OBL16 = g.HEADER + """From Coq Require Import Permutation.
@@ -124,7 +127,7 @@ def obligations(ctx, facts):
     if failed or not ok:
         detail = {k: facts.get(k) for k in ("serve_body_statements", "mutex_field", "pointer_receiver", "other_mutex_ops_at",
                                             "dispatch_notes", "sf_embedders", "go_stmts_at", "pkg_vars_written_at",
-                                            "reentrant_serve_calls_at")}
+                                            "reentrant_serve_calls_at", "boot_concurrent_at")}
         ctx.broken.append("gen/Obl16.v: side conditions %s of C16_engine_serialisable_partial are false for the facts translated "
                           "from the current source (%s)" % (failed, json.dumps(detail)[:1500]))
     return failed
